@@ -474,12 +474,229 @@ def _grammar(ctx, model, table):
 NAME, TEXT, EXPR = "NAME", "TEXT", "EXPR"
 
 
+def _judge_c_cse(model, cm, mem):
+    """interpretive judge (pv/absint.py): map_common_subexpression interpreted
+    on call histories over one mapper state.  Invariants checked after every
+    call (they are the property's clauses, not the handler's shape):
+      * the name returned for a child is the name returned for it before;
+      * a name is assigned exactly once (names in cse_name_list are distinct)
+        and is in cse_names;
+      * the returned name has an assignment whose text is the text of the
+        child, and children with different texts get different names;
+      * an assignment whose text uses another hoisted name comes after that
+        name's own assignment (inner first);
+      * names already in use (handed in through a copy) are not reused.
+    -> witnesses"""
+    import itertools
+    from ..absint import Interp, Opaque, Raised, StepBound
+    helpers = {}
+    for k in reversed([x for x in model.mro(cm) if not isinstance(x, str)]):
+        for nm_, mm_ in k.members.items():
+            if mm_.kind == "func" and nm_.startswith("_") and \
+                    not nm_.startswith("__"):
+                helpers[nm_] = mm_.node
+
+    class Cse:
+        def __init__(self, child, prefix=None):
+            self.child, self.prefix = child, prefix
+
+    class Tree:
+        """a child: text with place-holders for nested wrappers"""
+        def __init__(self, label, inner=()):
+            self.label, self.inner = label, tuple(inner)
+
+        def __hash__(self):
+            return hash((self.label, self.inner))
+
+        def __eq__(self, o):
+            return isinstance(o, Tree) and (self.label, self.inner) == (
+                o.label, o.inner)
+
+    init = model.lookup(cm, "__init__")
+    if init is None or init.kind != "func":
+        raise AnalysisError("CCodeMapper.__init__ not found")
+
+    class _Noop:
+        def __getattr__(self, name):
+            return lambda *a, **k: None
+
+        def __call__(self, *a, **k):
+            return None
+
+    def _isinst(it_, n_, a, k):
+        what = getattr(a[1], "what", "")
+        for nm_, ty in (("str", str), ("int", int), ("list", list),
+                        ("tuple", tuple), ("dict", dict)):
+            if what.endswith(" " + nm_):
+                return isinstance(a[0], ty)
+        raise AnalysisError(f"isinstance(..., {a[1]!r})")
+
+    class St:
+        """the mapper's state, as its own constructor sets it up"""
+        def __init__(self, taken=()):
+            self.extra = {}
+            # (a copy is handed the list its names come from)
+            lst = [(t_, f"old{i}()") for i, t_ in enumerate(taken)]
+
+            class I0(Interp):
+                def assign(self_, tgt, v, env):
+                    if isinstance(tgt, ast.Attribute) and self_.eval(
+                            tgt.value, env) is self:
+                        self.extra[tgt.attr] = v
+                        return
+                    return Interp.assign(self_, tgt, v, env)
+            it0 = I0(calls={"super": lambda it_, n_, a, k: _Noop(),
+                            "isinstance": _isinst},
+                     attrs=lambda it_, n_, b_, at: self.extra[at]
+                     if b_ is self and at in self.extra else _Noop()
+                     if isinstance(b_, _Noop) else Opaque(ast.unparse(n_)),
+                     max_steps=20000)
+            it0.call_function(init.node, [self, True, "_cse", "double", lst], {})
+
+        def __getattr__(self, name):
+            if name != "extra" and name in self.extra:
+                return self.extra[name]
+            raise AttributeError(name)
+    wit = []
+
+    def run_history(label, hist, taken=()):
+        st = St(taken)
+        seen = {}
+
+        def call(node):
+            def rec(ch, *a, **k):
+                if isinstance(ch, Cse):
+                    return call(ch)
+                # the text of a child: its label around the names of the
+                # wrappers inside it, in order
+                return ch.label + "(" + ",".join(
+                    call(c_) for c_ in ch.inner) + ")"
+
+            def attrs(it, n_, base, attr):
+                if base is st:
+                    if attr == "rec":
+                        return rec
+                    if attr in helpers:
+                        return lambda *a, **k: it.call_function(
+                            helpers[attr], [st] + list(a),
+                            {"__kwargs__": dict(k)})
+                    if attr in st.extra:
+                        return st.extra[attr]
+                    raise Raised(n_)
+                if isinstance(base, Cse) and attr in ("child", "prefix"):
+                    return getattr(base, attr)
+                return Opaque(ast.unparse(n_))
+
+            class I2(Interp):
+                def assign(self, tgt, v, env):
+                    if isinstance(tgt, ast.Attribute) and self.eval(
+                            tgt.value, env) is st:
+                        st.extra[tgt.attr] = v
+                        return
+                    return super().assign(tgt, v, env)
+            it = I2(calls={"isinstance": _isinst,
+                           "count": lambda it_, n_, a, k: itertools.count(*a),
+                           "itertools.count": lambda it_, n_, a, k:
+                           itertools.count(*a)},
+                    attrs=attrs, globals_={"PREC_NONE": 0}, max_steps=20000)
+            return it.call_function(mem.node, [st, node, 0], {})
+        for node in hist:
+            before = list(st.cse_name_list)
+            try:
+                name = call(node)
+            except Raised as r:
+                wit.append(f"{label}: raises at line {r.node.lineno}")
+                return
+            except StepBound:
+                wit.append(f"{label}: does not terminate (no fresh name found)")
+                return
+            names = [n_ for n_, _ in st.cse_name_list]
+            if len(set(names)) != len(names):
+                wit.append(f"{label}: a name is assigned twice: {names}")
+                return
+            if not isinstance(name, str) or name not in names:
+                wit.append(f"{label}: the returned name {name!r} has no "
+                           f"assignment ({names})")
+                return
+            if name in taken:
+                wit.append(f"{label}: a name already in use is reused: {name}")
+                return
+            if not set(names) <= st.cse_names:
+                wit.append(f"{label}: an assigned name is not recorded as used")
+                return
+            if node.child in seen:
+                if seen[node.child] != name:
+                    wit.append(f"{label}: the same child gets {name} after "
+                               f"{seen[node.child]}")
+                    return
+                if st.cse_name_list != before:
+                    wit.append(f"{label}: a child seen before is assigned again")
+                    return
+            seen[node.child] = name
+            # inner first
+            pos = {n_: i for i, (n_, _) in enumerate(st.cse_name_list)}
+            for i, (n_, text) in enumerate(st.cse_name_list):
+                for other, j in pos.items():
+                    if other != n_ and other in _names_in(text) and j > i:
+                        wit.append(f"{label}: {n_} = {text} is assigned before "
+                                   f"{other}, which it uses")
+                        return
+        # different texts, different names
+        text_of = {}
+        for n_, text in st.cse_name_list:
+            text_of.setdefault(n_, text)
+        if len(set(text_of.values())) != len(text_of):
+            wit.append(f"{label}: two names for one text {st.cse_name_list}")
+
+    def _names_in(text):
+        import re
+        return set(re.findall(r"_cse\w*", text))
+    A, B, C = Tree("A"), Tree("B"), Tree("C")
+    run_history("same prefix on three children, then the first again",
+                [Cse(A, "p"), Cse(B, "p"), Cse(C, "p"), Cse(A, "p")])
+    run_history("no prefix, three children, repeats",
+                [Cse(A), Cse(B), Cse(A), Cse(C), Cse(B)])
+    run_history("prefixed and unprefixed mixed",
+                [Cse(A, "p"), Cse(B), Cse(C, "p"), Cse(B, "q")])
+    run_history("names already in use",
+                [Cse(A, "p"), Cse(B, "p"), Cse(C)],
+                taken=("_cse_p", "_cse_p_2", "_cse0"))
+    inner = Cse(A, "i")
+    run_history("nested wrappers", [Cse(Tree("O", [inner, Cse(B)]), "o"),
+                                    inner, Cse(Tree("P", [inner]), "o")])
+    return wit
+
+
 def _cse_bookkeeping(ctx, model):
     cm = model.cls(f"{CC}:CCodeMapper")
     loc = cm.loc()
     mem = effective_member(model, cm, "map_common_subexpression")
     if mem is None or mem.kind != "func" or mem.owner is not cm:
         raise AnalysisError("CCodeMapper.map_common_subexpression not found")
+    wit = _judge_c_cse(model, cm, mem)
+    ctx.ob("P0/c-cse/history-semantics", not wit, where_(mem),
+           "map_common_subexpression interpreted on five call histories "
+           "(repeated prefixes, no prefix, names in use, nested wrappers): one "
+           "assignment per child, distinct names, inner before outer, names in "
+           "use never reused" if not wit else
+           "CCodeMapper.map_common_subexpression: " + "; ".join(wit[:3]))
+    mark = len(ctx.obs)
+    try:
+        _cse_handler_structural(ctx, model, cm, mem, loc)
+    except AnalysisError:
+        if wit:
+            raise
+    if not wit:
+        ctx.withdraw_failures_since(mark, "decided by interpreting the handler "
+                                    "on call histories")
+    _cse_state_rules(ctx, model, cm, mem, loc)
+
+
+def where_(mem):
+    return mem.owner.module.loc(mem.node)
+
+
+def _cse_handler_structural(ctx, model, cm, mem, loc):
     n = model.nodes.get("CommonSubexpression")
     pss = handler_summaries(model, n, mem.node, loop_mode="1")
     hit = miss = 0
@@ -616,6 +833,9 @@ def _cse_bookkeeping(ctx, model):
            "name generators enumerate an unbounded family of candidates" if ok else
            "the CSE name generators do not enumerate ever new candidates")
 
+
+
+def _cse_state_rules(ctx, model, cm, mem, loc):
     # ---- constructor / copy: roles of what is stored -----------------------
     init = cm.members.get("__init__")
     if init is None:
